@@ -12,7 +12,8 @@ RULE = ("2D SEG-Y sections (no il/xl numbering, single inline, single crossline)
         "and sample counts around 1,2,3 z-blocks x all valid (1,n,m) blockshapes x rates 1..32: decoded section == 2D zfpy "
         "image of the edge-extended section bit for bit, data bytes == reference encoder, trace i / header i == source, "
         "sample axis, trace count; read-side: synthetic 2D files under the symbolic decoder: get_trace / read_subplane windows "
-        "on every residue vs spec address function and vs the Lean model; volume-style reads refused")
+        "on every residue vs spec address function and vs the Lean model; volume-style reads refused"
+        "; K also: Model/Writer cells2d / hashFeed2d vs the real 2D producer under the symbolic compressor and hash log")
 
 
 def write_side(ctx, rng, k):
